@@ -289,6 +289,7 @@ def nongeo_edit_sets(rng, ev: Eval) -> list:
     E.append(('set_coords', [{'op': 'set_coords', 'names': names}]))
     E.append(('reset_coords', [{'op': 'reset_coords', 'names': names}]))
     E.append(('chunk', [{'op': 'chunk'}]))
+    E.append(('chunk:small', [{'op': 'chunk', 'size': rng.choice([1, 2, 3])}]))
     # same values, other memory layout (column-major) of every geometry variable with >= 2 dimensions
     E.append(('memory_layout', [{'op': 'fortran_layout', 'names': list(state['expected'])}]))
     E.append(('deep_copy', [{'op': 'copy', 'deep': True}]))
